@@ -26,6 +26,9 @@ class Ctx:
         self.heap = heap          # dict key -> array (shared with the state at snapshot time: copy!)
 
     def arr(self, key):
+        gone = getattr(self.eng, "vanished_attrs", None)
+        if gone and key.split("#")[0].split(".")[-1] in gone:
+            raise Unsupported("the specification reads the attribute %r, which the current source no longer has" % key)
         if key not in self.heap:
             self.heap[key] = z3.Const("H0_" + key.replace("#", "_"), self.eng.schema.field_sort(key))
         return self.heap[key]
@@ -844,6 +847,9 @@ class LoopCtx:
         self.seen = seen                # set of elements already processed (set iteration)
         self.elems = elems              # the iterated set (SetSort) / None
         self.seq = seq                  # the iterated sequence (Seq(Val)) / None
+        info = getattr(eng, "cur_loop_info", None) or (None, ())
+        self.iter_src = info[0]         # source text of the iterated expression, e.g. "self.proxies"
+        self.done = info[1]             # the same for the loops of this function that ran before this one
 
 
 class LoopSpec:
@@ -920,12 +926,13 @@ class LoopSpec:
         return alias
 
     def run(self, eng, node, it, st, ordinal):
-        saved = getattr(eng, "loop_alias", None)
+        saved = getattr(eng, "loop_alias", None), getattr(eng, "cur_loop_info", None)
         eng.loop_alias = self._resolve_names(node, st)
+        eng.cur_loop_info = getattr(eng, "loop_iter_info", None)
         try:
             return self._run(eng, node, it, st, ordinal)
         finally:
-            eng.loop_alias = saved
+            eng.loop_alias, eng.cur_loop_info = saved
 
     def _run(self, eng, node, it, st, ordinal):
         import z3 as _z3
